@@ -11,6 +11,12 @@ class Validation:
         raise gfapy.ValueError(
             "Fragment: {}\n".format(str(self))+
             "{0}_beg > {0}_end: {1} > {2}".format(pfx, beg, end))
+      if gfapy.islastpos(self.get(pfx+"_beg")) and \
+          not gfapy.islastpos(self.get(pfx+"_end")):
+        raise gfapy.FormatError(
+            "Fragment: {}\n".format(str(self))+
+            "Wrong use of $ marker\n"+
+            "{0}_beg is the last position, {0}_end is not".format(pfx))
 
   def validate_positions(self):
     "Checks that positions suffixed by $ are the last position of segments"
